@@ -71,32 +71,42 @@ def wkey(case):
 def run(ctx):
     if ctx.replay:
         rep = json.load(open(ctx.replay))["replay"]
-        execute(ctx, [rep], {}, "replay")
+        execute(ctx, [rep], "replay")
         return
     # 1. the two repaired designs satisfy C38, the pinned step structure does not
+    mc = (("p2eq", R2, P2, "FALSE"), ("p1eq", R2, P1, "TRUE")) + ctx.pick((), (
+        ("p2eq", R2, P2, "TRUE"), ("p1eq", R2, P1, "FALSE"), ("p2", R2, P2, "FALSE"), ("p2old", R2, P2, "FALSE"), ("p1", R3, P1, "FALSE")))
     for design in ("lock", "gen"):
-        for sc, rs, ps in (("p1eq", R2, P1), ("p2eq", R2, P2)) + ctx.pick((), (("p2", R2, P2), ("p2old", R2, P2), ("p1", R3, P1))):
-            for warm in ("FALSE", "TRUE"):
-                ctx.tlc("dnsserver", "MC_DnsCache", cfg="DnsCache_mc.cfg", mode="mc", constants=consts(design, sc, rs, ps, warm),
-                        require_actions=ACTIONS if warm == "FALSE" else ["RCheck", "PUpsert", "PInval", "PAck"], workers=2)
+        for sc, rs, ps, warm in mc:
+            ctx.tlc("dnsserver", "MC_DnsCache", cfg="DnsCache_mc.cfg", mode="mc", constants=consts(design, sc, rs, ps, warm),
+                    require_actions=ACTIONS if warm == "FALSE" else ["RCheck", "PUpsert", "PInval", "PAck"], workers=2)
     ctx.tlc("dnsserver", "MC_DnsCache", cfg="DnsCache_refute.cfg", mode="mc", constants=consts("aswritten", "p1", R2, P1, "FALSE"),
             expect_violation="NoStaleAnswer", workers=2)
     # 2. words of the as-written step structure, forced onto the real code
-    total = 0
-    for n, (sc, rs, ps, warm, mode) in enumerate(ctx.pick(QUICK, THOROUGH)):
-        kw = dict(sim=4000, depth=14) if mode == "sim" else {}
-        res = ctx.tlc("dnsserver", "MC_DnsCache", cfg="DnsCache_gen.cfg", mode=mode, constants=consts("aswritten", sc, rs, ps, warm),
-                      timeout=1800, **kw)
-        fixed = ctx.tlc("dnsserver", "MC_DnsCache", cfg="DnsCache_gen.cfg", mode=mode, constants=consts("gen", sc, rs, ps, warm),
-                        timeout=1800, **kw)
-        words = {}
-        for c in res.replays:
-            words.setdefault(wkey(c), c)
-        if not words:
-            raise ToolError("no word generated for %s" % sc)
-        pred_gen = {wkey(c): c for c in fixed.replays}
-        execute(ctx, list(words.values()), pred_gen, "s%d" % n)
-        total += len(words)
+    scenarios = ctx.pick(QUICK, THOROUGH)
+
+    def words_of(design):
+        cases = []
+        for n, (sc, rs, ps, warm, mode) in enumerate(scenarios):
+            kw = dict(sim=4000, depth=14) if mode == "sim" else {}
+            res = ctx.tlc("dnsserver", "MC_DnsCache", cfg="DnsCache_gen.cfg", mode=mode, constants=consts(design, sc, rs, ps, warm),
+                          timeout=1800, **kw)
+            words = {}
+            for c in res.replays:
+                words.setdefault(wkey(c), c)
+            if not words:
+                raise ToolError("no word generated for %s" % sc)
+            cases += list(words.values())
+        return cases
+
+    st = execute(ctx, words_of("aswritten"), "aswritten")
+    if st["diverged"] or st["matched"] != st["judged"]:
+        # the code does not follow the as-written model (a repair?): it must then follow the 'gen' design on that design's words
+        ctx.log("observations differ from the as-written model (%s); trying the 'gen' design" % st)
+        st2 = execute(ctx, words_of("gen"), "gen")
+        if (st2["diverged"] or st2["matched"] != st2["judged"]) and not (st["blocked"] or st2["blocked"]) and not ctx.violations:
+            raise ToolError("spec drift / binding broken: the real calls follow neither the as-written model (%s) nor the 'gen' design (%s)"
+                            % (st, st2))
     ctx.cov["rule"] = ("every complete interleaving of the as-written step structure for the listed scenarios (exhaustive in the quick "
                        "tier; thorough adds seeded samples of the larger ones); non-trivial = some publish step lies between the first "
                        "and last step of a lookup")
@@ -117,7 +127,12 @@ def classify(case, stale_answer, verof):
     return "no_racing_fill"
 
 
-def execute(ctx, cases, pred_gen, tag):
+def agrees(o, pred):
+    return all(o["answers"].get(r) == a for r, a in pred["rans"].items()) and \
+        all(o["flags"].get(p) == f for p, f in pred["pres"].items())
+
+
+def execute(ctx, cases, tag):
     inp = ctx.write_ndjson("c38-%s.in" % tag, cases)
     outp = ctx.path("c38-%s.out" % tag)
     ctx.run_bin("vh_dnssrv", ["c38", "--in", inp, "--out", outp], timeout=3000)
@@ -143,7 +158,7 @@ def execute(ctx, cases, pred_gen, tag):
         raise ToolError("monitor judged %d answers, driver logged %d" % (sum(len(v) for v in verdicts.values()), n_answers))
     blocked = sum(1 for o in obs if o["blocked"])
     diverged = [i for i, o in enumerate(obs) if o["diverged"]]
-    match = {"aswritten": 0, "gen": 0}
+    matched = 0
     judged = 0
     for i, (c, o) in enumerate(zip(cases, obs)):
         word = [(s["p"], s["a"]) for s in c["word"]]
@@ -166,20 +181,9 @@ def execute(ctx, cases, pred_gen, tag):
                        % (v["r"], v["demanded"], v["ans"], " ".join("%s.%s" % w for w in word), c["warm"], c["tsof"]), c)
         if not o["blocked"] and not o["diverged"]:
             judged += 1
-            for design, pred in (("aswritten", c), ("gen", pred_gen.get(wkey(c)))):
-                if pred is None:
-                    continue
-                if all(o["answers"].get(r) == a for r, a in pred["rans"].items()) and \
-                        all(o["flags"].get(p) == f for p, f in pred["pres"].items()):
-                    match[design] += 1
-    ctx.log("c38 %s: %d words, %d blocked, %d diverged, predictions matched: %s of %d" % (tag, len(cases), blocked, len(diverged), match, judged))
-    if diverged:
-        raise ToolError("binding broken: %d words left the pause-point structure of DnsCache.tla (first: case %d %s)"
-                        % (len(diverged), diverged[0], cases[diverged[0]]["word"]))
-    if blocked == 0 and judged and max(match.values()) != judged and not ctx.violations:
-        raise ToolError("spec drift: the observed answers follow neither the as-written nor the 'gen' design (%s of %d)" % (match, judged))
-    conf = ctx.cov.setdefault("conformance", {"words": 0, "blocked": 0, "matches_aswritten": 0, "matches_gen_design": 0})
-    conf["words"] += len(cases)
-    conf["blocked"] += blocked
-    conf["matches_aswritten"] += match["aswritten"]
-    conf["matches_gen_design"] += match["gen"]
+            if agrees(o, c):
+                matched += 1
+    st = {"words": len(cases), "judged": judged, "matched": matched, "blocked": blocked, "diverged": len(diverged)}
+    ctx.log("c38 %s: %s" % (tag, st))
+    ctx.cov.setdefault("conformance", {})[tag] = st
+    return st
